@@ -1184,3 +1184,94 @@ package gkvlite
 //@   ensures [C07] failed-call-changes-nothing: err != nil ==> !wasDeleted && t.root == old(t.root) && t.root.refs == old(t.root.refs) && t.root.root == old(t.root.root) && tvs[t.root.root] == old(tvs)[old(t.root.root)]
 //@   ensures [C07,C10] failed-call-leaves-no-marks: err != nil ==> forall m {node.next[m]} :: !fresh(m) ==> node.next[m] == old(node.next[m])
 //@   ensures [C19] no-value-bytes: io.valbytes == old(io.valbytes)
+
+// ---------------------------------------------------------------------------
+// treap.go / collection.go: walk, MinItem, MaxItem, GetTotals
+
+//@ global walkDir(funcref("(*Collection).MinItem$1")) == 0 && walkDir(funcref("(*Collection).MaxItem$1")) == 1
+
+//@ func (*Collection).MinItem$1
+//@   props C01
+//@   requires n != nil
+//@   ensures [C01] always-left: result0 == ref(n.left) && result1
+
+//@ func (*Collection).MaxItem$1
+//@   props C01
+//@   requires n != nil
+//@   ensures [C01] always-right: result0 == ref(n.right) && result1
+
+//@ functype (*Store).walk.cfn(n) (child, ok)
+//@   from: the three closures handed to walk (MinItem$1, MaxItem$1, EvictSomeItems$1); walkDir classifies them (see the global above, justified by the contracts of MinItem$1 / MaxItem$1)
+//@   requires n != nil && locks == emptyLocks()
+//@   modifies itemLoc.item, cell.Int, ghost net
+//@   ensures [C01] left-chooser: walkDir(codeOf(self)) == 0 ==> ok && child == ref(n.left)
+//@   ensures [C01] right-chooser: walkDir(codeOf(self)) == 1 ==> ok && child == ref(n.right)
+//@   ensures chooses-a-child: ok ==> child == ref(n.left) || child == ref(n.right)
+//@   ensures [C15] evicts-only-persisted-items: forall y {itemLoc.item[y]} :: itemLoc.item[y] == old(itemLoc.item[y]) || (itemLoc.item[y] == nil && !emptyLoc(itemLoc.loc[y]))
+
+//@ func (*Store).walk
+//@   props C01 C19 C07 C15 C05 C04
+//@   from: C01 statement ("Min/Max are the extreme keys"); C19 key-only; C04/C09 a walk changes no version
+//@   requires [C05,C18] nolocks: locks == emptyLocks()
+//@   requires o != nil && t != nil && t.store == o && t.rootLock != nil && cfn != nil
+//@   requires [C07] open-handle: t.root != nil
+//@   relies root-lock-is-private: t.rootLock != ref(freeNodeLock) && t.rootLock != ref(freeNodeLocLock) && t.rootLock != ref(freeRootNodeLocLock)
+//@   relies [C04] current-version-is-live: t.root.refs >= 1 && t.root.root != nil && t.root.next == nil
+//@   relies [C13] published-root-is-a-search-tree: bst(tvs[t.root.root])
+//@   modifies rootNodeLoc.refs, rootNodeLoc.root, rootNodeLoc.next, rootNodeLoc.chainedCollection, rootNodeLoc.chainedRootNodeLoc, node.numNodes, node.numBytes, node.next, itemLoc.loc, itemLoc.item, nodeLoc.loc, nodeLoc.node, nodeLoc.next, mem.ptr, G.freeNodes, G.freeNodeLocs, G.freeRootNodeLocs, AllocStats.CurFreeNodes, AllocStats.FreeNodes, AllocStats.CurFreeNodeLocs, AllocStats.FreeNodeLocs, AllocStats.CurFreeRootNodeLocs, AllocStats.FreeRootNodeLocs, ghost net, ghost tvs, t.store.nodeAllocs, new ploc.Offset, new ploc.Length, new node.numNodes, new node.numBytes, new node.next, new itemLoc.loc, new itemLoc.item, new nodeLoc.loc, new nodeLoc.node, new nodeLoc.next, new Item.Key, new Item.Val, new Item.Priority, new Item.Transient, new mem.byte, ghost io.fails, ghost io.reads, ghost io.valbytes, ghost src, cell.Int
+//@   ensures [C07] E1: io.fails >= old(io.fails) && (io.fails > old(io.fails) ==> err != nil)
+//@   ensures [C07] error-means-no-item: err != nil ==> res == nil
+//@   ensures [C01] item-of-the-tree: err == nil && res != nil ==> mem(ikey(ia(res)), old(tvs)[old(t.root.root)]) && ia(res) == itemAt(ikey(ia(res)), old(tvs)[old(t.root.root)]) && ipri(ia(res)) == res.Priority
+//@   ensures [C01] leftmost: err == nil && walkDir(codeOf(cfn)) == 0 ==> (res == nil) == isLeaf(old(tvs)[old(t.root.root)]) && (res != nil ==> forall k {mem(k, old(tvs)[old(t.root.root)])} :: mem(k, old(tvs)[old(t.root.root)]) ==> k >= ikey(ia(res)))
+//@   ensures [C01] rightmost: err == nil && walkDir(codeOf(cfn)) == 1 ==> (res == nil) == isLeaf(old(tvs)[old(t.root.root)]) && (res != nil ==> forall k {mem(k, old(tvs)[old(t.root.root)])} :: mem(k, old(tvs)[old(t.root.root)]) ==> k <= ikey(ia(res)))
+//@   ensures [C19] key-only-reads-no-value: !withValue ==> io.valbytes == old(io.valbytes)
+//@   ensures [C04,C09] walk-changes-no-version: t.root == old(t.root) && rootNodeLoc.refs == old(rootNodeLoc.refs) && rootNodeLoc.root == old(rootNodeLoc.root) && rootNodeLoc.next == old(rootNodeLoc.next) && rootNodeLoc.chainedCollection == old(rootNodeLoc.chainedCollection) && rootNodeLoc.chainedRootNodeLoc == old(rootNodeLoc.chainedRootNodeLoc) && tvs == old(tvs) && ias == old(ias) && (forall m {node.next[m]} :: !fresh(m) ==> node.next[m] == old(node.next[m])) && (forall x {nodeLoc.loc[x]} {nodeLoc.next[x]} :: !fresh(x) ==> nodeLoc.loc[x] == old(nodeLoc.loc[x]) && nodeLoc.next[x] == old(nodeLoc.next[x])) && freeNodes == old(freeNodes) && freeNodeLocs == old(freeNodeLocs) && freeRootNodeLocs == old(freeRootNodeLocs)
+//@   ensures [C15] caller-gets-a-reference: refcb(t.store) && res != nil ==> net[res] >= 1
+//@   loop 0 modifies nodeLoc.node, itemLoc.item, cell.Int, ghost net, t.store.nodeAllocs, new ploc.Offset, new ploc.Length, new node.numNodes, new node.numBytes, new node.next, new itemLoc.loc, new itemLoc.item, new nodeLoc.loc, new nodeLoc.node, new nodeLoc.next, new Item.Key, new Item.Val, new Item.Priority, new Item.Transient, new mem.byte, ghost io.fails, ghost io.reads, ghost io.valbytes, ghost src
+//@   loop 0 invariant pinned: nNode != nil && rnl == old(t.root) && rnl.refs == old(t.root.refs) + 1 && io.fails == old(io.fails)
+//@   loop 0 invariant [C19] no-value-yet: io.valbytes == old(io.valbytes)
+//@   loop 0 invariant shape: tv(nNode) == mkTree(tvs[ref(nNode.left)], ias[ref(nNode.item)], tvs[ref(nNode.right)]) && bst(tv(nNode)) && (nNode.item.item != nil || !emptyLoc(nNode.item.loc)) && (nNode.item.item != nil && nNode.item.item.Val == nil ==> !emptyLoc(nNode.item.loc))
+//@   loop 0 invariant subtree: forall k {mem(k, tv(nNode))} :: mem(k, tv(nNode)) ==> mem(k, old(tvs)[old(t.root.root)]) && itemAt(k, tv(nNode)) == itemAt(k, old(tvs)[old(t.root.root)])
+//@   loop 0 invariant leftmost-so-far: walkDir(codeOf(cfn)) == 0 ==> forall a, b {mem(a, tv(nNode)), mem(b, old(tvs)[old(t.root.root)])} :: mem(a, tv(nNode)) && mem(b, old(tvs)[old(t.root.root)]) && !mem(b, tv(nNode)) ==> b > a
+//@   loop 0 invariant rightmost-so-far: walkDir(codeOf(cfn)) == 1 ==> forall a, b {mem(a, tv(nNode)), mem(b, old(tvs)[old(t.root.root)])} :: mem(a, tv(nNode)) && mem(b, old(tvs)[old(t.root.root)]) && !mem(b, tv(nNode)) ==> b < a
+//@   loop 0 decreases cnt(tv(nNode))
+
+//@ func (*Collection).MinItem
+//@   props C01 C19 C07 C15 C05 C04
+//@   requires [C05,C18] nolocks: locks == emptyLocks()
+//@   requires t != nil && t.store != nil && t.rootLock != nil
+//@   requires [C07] open-handle: t.root != nil
+//@   modifies rootNodeLoc.refs, rootNodeLoc.root, rootNodeLoc.next, rootNodeLoc.chainedCollection, rootNodeLoc.chainedRootNodeLoc, node.numNodes, node.numBytes, node.next, itemLoc.loc, itemLoc.item, nodeLoc.loc, nodeLoc.node, nodeLoc.next, mem.ptr, G.freeNodes, G.freeNodeLocs, G.freeRootNodeLocs, AllocStats.CurFreeNodes, AllocStats.FreeNodes, AllocStats.CurFreeNodeLocs, AllocStats.FreeNodeLocs, AllocStats.CurFreeRootNodeLocs, AllocStats.FreeRootNodeLocs, ghost net, ghost tvs, t.store.nodeAllocs, new ploc.Offset, new ploc.Length, new node.numNodes, new node.numBytes, new node.next, new itemLoc.loc, new itemLoc.item, new nodeLoc.loc, new nodeLoc.node, new nodeLoc.next, new Item.Key, new Item.Val, new Item.Priority, new Item.Transient, new mem.byte, ghost io.fails, ghost io.reads, ghost io.valbytes, ghost src, cell.Int
+//@   ensures [C07] E1: io.fails >= old(io.fails) && (io.fails > old(io.fails) ==> result1 != nil)
+//@   ensures [C01] minimum: result1 == nil ==> (result0 == nil) == isLeaf(old(tvs)[old(t.root.root)]) && (result0 != nil ==> mem(ikey(ia(result0)), old(tvs)[old(t.root.root)]) && ia(result0) == itemAt(ikey(ia(result0)), old(tvs)[old(t.root.root)]) && (forall k {mem(k, old(tvs)[old(t.root.root)])} :: mem(k, old(tvs)[old(t.root.root)]) ==> k >= ikey(ia(result0))))
+//@   ensures [C07] error-means-no-item: result1 != nil ==> result0 == nil
+//@   ensures [C19] key-only-reads-no-value: !withValue ==> io.valbytes == old(io.valbytes)
+//@   ensures [C04,C09] changes-no-version: t.root == old(t.root) && rootNodeLoc.refs == old(rootNodeLoc.refs) && rootNodeLoc.root == old(rootNodeLoc.root) && rootNodeLoc.next == old(rootNodeLoc.next) && rootNodeLoc.chainedCollection == old(rootNodeLoc.chainedCollection) && rootNodeLoc.chainedRootNodeLoc == old(rootNodeLoc.chainedRootNodeLoc) && tvs == old(tvs) && ias == old(ias) && (forall m {node.next[m]} :: !fresh(m) ==> node.next[m] == old(node.next[m])) && (forall x {nodeLoc.loc[x]} {nodeLoc.next[x]} :: !fresh(x) ==> nodeLoc.loc[x] == old(nodeLoc.loc[x]) && nodeLoc.next[x] == old(nodeLoc.next[x])) && freeNodes == old(freeNodes) && freeNodeLocs == old(freeNodeLocs) && freeRootNodeLocs == old(freeRootNodeLocs)
+//@   ensures [C15] caller-gets-a-reference: refcb(t.store) && result0 != nil ==> net[result0] >= 1
+
+//@ func (*Collection).MaxItem
+//@   props C01 C19 C07 C15 C05 C04
+//@   requires [C05,C18] nolocks: locks == emptyLocks()
+//@   requires t != nil && t.store != nil && t.rootLock != nil
+//@   requires [C07] open-handle: t.root != nil
+//@   modifies rootNodeLoc.refs, rootNodeLoc.root, rootNodeLoc.next, rootNodeLoc.chainedCollection, rootNodeLoc.chainedRootNodeLoc, node.numNodes, node.numBytes, node.next, itemLoc.loc, itemLoc.item, nodeLoc.loc, nodeLoc.node, nodeLoc.next, mem.ptr, G.freeNodes, G.freeNodeLocs, G.freeRootNodeLocs, AllocStats.CurFreeNodes, AllocStats.FreeNodes, AllocStats.CurFreeNodeLocs, AllocStats.FreeNodeLocs, AllocStats.CurFreeRootNodeLocs, AllocStats.FreeRootNodeLocs, ghost net, ghost tvs, t.store.nodeAllocs, new ploc.Offset, new ploc.Length, new node.numNodes, new node.numBytes, new node.next, new itemLoc.loc, new itemLoc.item, new nodeLoc.loc, new nodeLoc.node, new nodeLoc.next, new Item.Key, new Item.Val, new Item.Priority, new Item.Transient, new mem.byte, ghost io.fails, ghost io.reads, ghost io.valbytes, ghost src, cell.Int
+//@   ensures [C07] E1: io.fails >= old(io.fails) && (io.fails > old(io.fails) ==> result1 != nil)
+//@   ensures [C01] maximum: result1 == nil ==> (result0 == nil) == isLeaf(old(tvs)[old(t.root.root)]) && (result0 != nil ==> mem(ikey(ia(result0)), old(tvs)[old(t.root.root)]) && ia(result0) == itemAt(ikey(ia(result0)), old(tvs)[old(t.root.root)]) && (forall k {mem(k, old(tvs)[old(t.root.root)])} :: mem(k, old(tvs)[old(t.root.root)]) ==> k <= ikey(ia(result0))))
+//@   ensures [C07] error-means-no-item: result1 != nil ==> result0 == nil
+//@   ensures [C19] key-only-reads-no-value: !withValue ==> io.valbytes == old(io.valbytes)
+//@   ensures [C04,C09] changes-no-version: t.root == old(t.root) && rootNodeLoc.refs == old(rootNodeLoc.refs) && rootNodeLoc.root == old(rootNodeLoc.root) && rootNodeLoc.next == old(rootNodeLoc.next) && rootNodeLoc.chainedCollection == old(rootNodeLoc.chainedCollection) && rootNodeLoc.chainedRootNodeLoc == old(rootNodeLoc.chainedRootNodeLoc) && tvs == old(tvs) && ias == old(ias) && (forall m {node.next[m]} :: !fresh(m) ==> node.next[m] == old(node.next[m])) && (forall x {nodeLoc.loc[x]} {nodeLoc.next[x]} :: !fresh(x) ==> nodeLoc.loc[x] == old(nodeLoc.loc[x]) && nodeLoc.next[x] == old(nodeLoc.next[x])) && freeNodes == old(freeNodes) && freeNodeLocs == old(freeNodeLocs) && freeRootNodeLocs == old(freeRootNodeLocs)
+
+//@ func (*Collection).GetTotals
+//@   props C01 C13 C07 C19 C05 C04
+//@   from: C01 ("GetTotals is the exact item count and the exact sum of key+value lengths"), C13 ("every subtree records its exact item count and byte total"): the root's aggregates are cnt/sumb of the abstract tree (cnt = number of keys of a search tree: lemma L2)
+//@   requires [C05,C18] nolocks: locks == emptyLocks()
+//@   requires t != nil && t.store != nil && t.rootLock != nil
+//@   requires [C07] open-handle: t.root != nil
+//@   relies root-lock-is-private: t.rootLock != ref(freeNodeLock) && t.rootLock != ref(freeNodeLocLock) && t.rootLock != ref(freeRootNodeLocLock)
+//@   relies [C04] current-version-is-live: t.root.refs >= 1 && t.root.root != nil && t.root.next == nil
+//@   relies [C13] published-root-is-a-search-tree: bst(tvs[t.root.root])
+//@   modifies rootNodeLoc.refs, rootNodeLoc.root, rootNodeLoc.next, rootNodeLoc.chainedCollection, rootNodeLoc.chainedRootNodeLoc, node.numNodes, node.numBytes, node.next, itemLoc.loc, itemLoc.item, nodeLoc.loc, nodeLoc.node, nodeLoc.next, mem.ptr, G.freeNodes, G.freeNodeLocs, G.freeRootNodeLocs, AllocStats.CurFreeNodes, AllocStats.FreeNodes, AllocStats.CurFreeNodeLocs, AllocStats.FreeNodeLocs, AllocStats.CurFreeRootNodeLocs, AllocStats.FreeRootNodeLocs, ghost net, ghost tvs, t.store.nodeAllocs, new ploc.Offset, new ploc.Length, new node.numNodes, new node.numBytes, new node.next, new itemLoc.loc, new itemLoc.item, new nodeLoc.loc, new nodeLoc.node, new nodeLoc.next, new Item.Key, new Item.Val, new Item.Priority, new Item.Transient, new mem.byte, ghost io.fails, ghost io.reads, ghost io.valbytes, ghost src
+//@   ensures [C07] E1: io.fails >= old(io.fails) && (io.fails > old(io.fails) ==> err != nil)
+//@   ensures [C01,C13] exact-totals: err == nil ==> numItems == cnt(old(tvs)[old(t.root.root)]) && numBytes == sumb(old(tvs)[old(t.root.root)])
+//@   ensures [C19] no-value-bytes: io.valbytes == old(io.valbytes)
+//@   ensures [C04,C09] changes-no-version: t.root == old(t.root) && rootNodeLoc.refs == old(rootNodeLoc.refs) && rootNodeLoc.root == old(rootNodeLoc.root) && rootNodeLoc.next == old(rootNodeLoc.next) && rootNodeLoc.chainedCollection == old(rootNodeLoc.chainedCollection) && rootNodeLoc.chainedRootNodeLoc == old(rootNodeLoc.chainedRootNodeLoc) && tvs == old(tvs) && ias == old(ias) && (forall m {node.next[m]} :: !fresh(m) ==> node.next[m] == old(node.next[m])) && (forall x {nodeLoc.loc[x]} {nodeLoc.next[x]} :: !fresh(x) ==> nodeLoc.loc[x] == old(nodeLoc.loc[x]) && nodeLoc.next[x] == old(nodeLoc.next[x])) && freeNodes == old(freeNodes) && freeNodeLocs == old(freeNodeLocs) && freeRootNodeLocs == old(freeRootNodeLocs)
